@@ -738,6 +738,9 @@ func layGenText(c *Ctx, i int) {
 			kernKind = "mutated"
 		}
 		kernArg = hx(data)
+		if len(data) == 0 { // a zero-length table is not stored in the file: same as no kern table
+			kernArg, kernKind = "-", "none"
+		}
 	}
 	sws := func(tag string) map[string]bool {
 		switch r.Intn(6) {
